@@ -228,6 +228,10 @@ func ruleC13(w *World, r *Report) {
 			}
 		})
 		r.check(inc && locked, "R13.2", w.FuncName(seqFn), "getSeqNum hands out successive numbers under its lock", w.Pos(seqFn.Pos()), "seq++ under mux", "getSeqNum does not increment (or not under its lock): sequence numbers repeat")
+		// every access to the counter, including the read of the value that is returned, holds the lock:
+		// reports are sent from the node's goroutine, heartbeats from the monitor's
+		ng := guardedBy(w, r, "R13.2", "sequenceNumber", map[string]bool{"seq": true}, "mux")
+		r.floor("R13.2 sequence counter accesses", ng, 3)
 	}
 	// report type: only DLDR
 	var rt *ssa.Call
